@@ -29,7 +29,7 @@ ASSUMPTIONS = ['the dialogue child is in raw mode, so the tty neither echoes nor
                'a violation is reported only if it reproduces in two further serial runs of the same dialogue',
                'pauses are either <= T/6 or >= 2.5 T (T = 1.0 s) so that which side of the timeout they fall on does not depend on load']
 REQUIRED = ['runs', 'flood_occurrences_checked', 'responses_checked', 'output_bytes_compared', 'callback_invocations', 'eof_event_runs', 'timeout_event_runs',
-            'exit_status_checks', 'list_form', 'dict_form', 'overlapping_patterns_wider', 'overlapping_patterns_shorter_first']
+            'exit_status_checks', 'exit_status_checks_child_ended_by_signal', 'exit_status_checks_stopped_early', 'list_form', 'dict_form', 'overlapping_patterns_wider', 'overlapping_patterns_shorter_first']
 
 DIALOGUE = os.path.join(PEERS, 'dialogue.py')
 T = 1.0
@@ -90,7 +90,12 @@ def gen_case(rng):
         if tail == 'long-pause-then-more':
             steps.append(['print', b'late'.hex()])
     code = rng.choice([0, 0, 1, 7, 200])
-    steps.append(['exit', code])
+    if tail == 'eof' and stop_at is None and rng.random() < 0.2:
+        # the child is ended by a signal: there is no exit code to report (added after seeded round ten)
+        code = None
+        steps.append(['killself', rng.choice([9, 15, 10, 2])])
+    else:
+        steps.append(['exit', code])
     eof_event = rng.choice([None, None, None, 'func-true', 'func-none', 'str']) if tail == 'eof' else None
     timeout_event = None
     split = False
@@ -363,8 +368,18 @@ def one(case, acc):
         # ---- exit status
         if case['withexitstatus'] and not stops_early:
             acc.count('exit_status_checks')
+            if case['code'] is None:
+                acc.count('exit_status_checks_child_ended_by_signal')
             if status != case['code']:
-                return v('run-exit-status-wrong', 'run() reported exit status %r, the child exited with %d' % (status, case['code']))
+                return v('run-exit-status-wrong', 'run() reported exit status %r, the child %s' % (
+                    status, 'was ended by a signal (no exit code)' if case['code'] is None else 'exited with %d' % case['code']))
+        elif case['withexitstatus']:
+            # run() stopped before the child was done and closed it: the child either had finished meanwhile (its
+            # code) or is torn down by close() and has no exit code of its own
+            acc.count('exit_status_checks_stopped_early')
+            if status is not None and status != case['code']:
+                return v('run-exit-status-wrong', 'run() stopped early and reported exit status %r; the child exits with %r '
+                         'when left alone and has no exit code when close() tears it down' % (status, case['code']))
         if len(want) >= 2 or case['eof_event'] or case['timeout_event'] or len(full) >= 65536:
             acc.nontrivial('c12', case if len(full) < 5000 else [case['events'], case['form'], case['eof_event'], len(full)])
         if acc.evaluations <= 2:
